@@ -219,6 +219,20 @@ def keyInv (s : State) : Bool :=
       x.byaddr.all fun b => !(s.stk.any fun v => v.id == b.1) || b.1 == b.2)
 
 
+/-- C06: the key a validator currently uses on a consumer always resolves to that validator -/
+def currentKeyResolves (s : State) : Bool :=
+  s.consumers.all fun x => x.ka.all fun e => x.byaddr.any fun b => b.1 == e.2 && b.2 == e.1
+
+/-- C06: on a launched consumer a key stops resolving only by pruning, i.e. only if it was scheduled
+    for pruning of THIS consumer with a deadline that has passed -/
+def prunedOnlyWhenDue (before after : State) : Bool :=
+  after.consumers.all fun x =>
+    let b := before.get x.id
+    b.phase != .launched || x.phase != .launched ||
+    b.byaddr.all fun e =>
+      x.byaddr.any (·.1 == e.1) ||
+      b.prune.any fun p => decide (p.1 ≤ after.now) && p.2.contains e.1
+
 /-! ### C19 -/
 
 /-- everything of a consumer record that a launch or a deletion may touch -/
